@@ -19,9 +19,8 @@ def sim(name, c):
     open("Sim_%s.cfg" % name, "w").write(c + "INIT Init\nNEXT Next\nCHECK_DEADLOCK FALSE\n")
 
 def trace(name, c):
-    # NotAccepted is listed last: its "violation" is how a fully matched trace is reported
     open("Trace_%s.cfg" % name, "w").write(
-        c + "SPECIFICATION TraceSpec\nINVARIANTS %s NotAccepted\nCHECK_DEADLOCK FALSE\n" % INV)
+        c + "SPECIFICATION TraceSpec\nINVARIANTS %s\nCONSTRAINT HighWater\nPOSTCONDITION TraceAccepted\nCHECK_DEADLOCK FALSE\n" % INV)
 
 K2, K1 = '{"out", "int"}', '{"out"}'
 DEBIT = '{"debit"}'
@@ -35,10 +34,11 @@ for mode in ("enforce", "shadow", "off"):
     # lifecycle: lazy pin, retain / release / finish racing debits
     mc("%sLife2" % M, consts("{1, 2}", K1, "MCCap1", mode, True, 3, 1, LIFE))
     # everything, two processes, two kinds (thorough)
-    mc("%sAll2" % M, consts("{1, 2}", K2, "MCCap", mode, True, 3))
-    mc("%sLife3" % M, consts("{1, 2, 3}", K1, "MCCap1", mode, True, 3, 1, LIFE))
-mc("EnforceDirect2", consts("{1, 2}", K2, "MCCap", "enforce", False, 3))
-mc("ShadowDirect2", consts("{1, 2}", K2, "MCCap", "shadow", False, 3))
+    mc("%sAll2" % M, consts("{1, 2}", K2, "MCCap", mode, True, 2))
+    mc("%sLife3" % M, consts("{1, 2, 3}", K1, "MCCap1", mode, True, 2, 1, LIFE))
+    mc("%sDebit3x3" % M, consts("{1, 2, 3}", K2, "MCCap", mode, True, 3, 0, DEBIT))
+mc("EnforceDirect2", consts("{1, 2}", K2, "MCCap", "enforce", False, 2))
+mc("ShadowDirect2", consts("{1, 2}", K2, "MCCap", "shadow", False, 2))
 mc("NegGt", consts("{1, 2}", K1, "MCCap1", "enforce", True, 2, 0, DEBIT, gtbug=True))
 # sequential call orders for the API replay; concurrent histories for the trace validation
 for mode in ("enforce", "shadow", "off"):
